@@ -201,6 +201,10 @@ def make_dist(d):
 
     if d["kind"] == "det":
         return distrax.Deterministic(loc=d["loc"])
+    if d["kind"] == "trainable":
+        from rex import base
+
+        return base.TrainableDist.create(delay=d["delay"], min=d["min"], max=d["max"], interp=d.get("interp", "zoh"))
     return distrax.Normal(loc=d["loc"], scale=d["scale"])
 
 
@@ -210,12 +214,13 @@ def build_nodes(spec, count_calls=False, cls=None):
     Probe = cls or make_probe_class()[0]
     nodes = {}
     for nd in spec["nodes"]:
+        extra = {"delay": nd["delay"]} if "delay" in nd else {}  # expected computation delay (phase) given explicitly
         nodes[nd["name"]] = Probe(
-            name=nd["name"], rate=nd["rate"], delay_dist=make_dist(nd["comp"]), advance=nd["advance"],
+            name=nd["name"], rate=nd["rate"], delay_dist=make_dist(nd["comp"]), advance=nd["advance"], **extra,
             scheduling=const.Scheduling.PHASE if nd["scheduling"] == "PHASE" else const.Scheduling.FREQUENCY, count_calls=count_calls,
         )
     for c in spec["conns"]:
-        kw = {}
+        kw = {"delay": c["delay"]} if "delay" in c else {}  # expected communication delay (phase) given explicitly
         if "delay_dist_obj" in c:
             dd = c["delay_dist_obj"]
         else:
@@ -764,6 +769,75 @@ def spec_fifo_blocking(rng):
     conns = [dict(src="n0", dst="n1", blocking=True, skip=False, jitter="LATEST", window=rng.choice([1, 3]), comm=dict(kind="normal", loc=round(1.5 * per, 4), scale=round(1.5 * per, 4))),
              dict(src="n1", dst="n0", blocking=False, skip=True, jitter="LATEST", window=1, comm=dict(kind="det", loc=0.002, scale=0.0))]
     return dict(nodes=nodes, conns=conns, supervisor="n1", seed=rng.randrange(1 << 30))
+
+
+def rand_spec_trainable(rng):
+    """dyadic rates / delays (exact float32 ties between arrivals and step starts) and one or two non-blocking LATEST connections with a
+    trainable (zero-order hold) delay created at its minimum: the recorded graph is at the minimal delay, the compiled windows are
+    extended by ceil(rate_sender * (max - min)) entries and `apply_delay` cuts them back at run time"""
+    spec = rand_spec(rng, tie_stream=True)
+    cands = [c for c in spec["conns"] if not c["blocking"] and not c["skip"]]
+    if not cands:
+        c = rng.choice(spec["conns"])
+        c["blocking"] = False
+        cands = [c]
+    rng.shuffle(cands)
+    for c in cands[: rng.randint(1, 2)]:
+        mn = rng.choice([0.0, 0.0625, 0.125])
+        c["jitter"] = "LATEST"
+        c["comm"] = dict(kind="trainable", min=mn, max=mn + rng.choice([0.0625, 0.1875, 0.25]), delay=mn, interp="zoh", loc=mn, scale=0.0)
+    return spec
+
+
+def spec_sink_tie(rng):
+    """supervisor -> world -> logger where the logger is a sink (no path back to the supervisor) and every period, phase and delay is
+    dyadic: with pruning off, logger steps end exactly when a supervisor step starts and must still be attached to that step"""
+    if rng.random() < 0.5:
+        # expected delays (phases) dyadic, actual delays small and not dyadic: every step starts on its phase grid; the sink's computation
+        # delay (1/64) makes its steps end exactly on the supervisor's grid
+        nodes = [dict(name="n0", rate=8, delay=0.0, comp=dict(kind="det", loc=0.01, scale=0.0), advance=False, scheduling="FREQUENCY"),
+                 dict(name="n1", rate=16, delay=0.0, comp=dict(kind="det", loc=0.01, scale=0.0), advance=False, scheduling="FREQUENCY"),
+                 dict(name="n2", rate=8, delay=0.0, comp=dict(kind="det", loc=0.015625, scale=0.0), advance=False, scheduling="FREQUENCY")]
+        conns = [dict(src="n0", dst="n1", blocking=False, skip=False, jitter="LATEST", window=1, delay=0.03125, comm=dict(kind="det", loc=0.005, scale=0.0)),
+                 dict(src="n1", dst="n0", blocking=False, skip=True, jitter="LATEST", window=2, delay=0.0, comm=dict(kind="det", loc=0.005, scale=0.0)),
+                 dict(src="n1", dst="n2", blocking=False, skip=False, jitter="LATEST", window=1, delay=0.078125, comm=dict(kind="det", loc=0.005, scale=0.0))]
+        return dict(nodes=nodes, conns=conns, supervisor="n0", seed=rng.randrange(1 << 30))
+    r = rng.choice([4, 8])
+    cd = rng.choice([0.015625, 0.03125])
+    nodes = [dict(name="n0", rate=r, comp=dict(kind="det", loc=0.0, scale=0.0), advance=False, scheduling="FREQUENCY"),
+             dict(name="n1", rate=2 * r, comp=dict(kind="det", loc=0.0, scale=0.0), advance=False, scheduling="FREQUENCY"),
+             dict(name="n2", rate=r, comp=dict(kind="det", loc=cd, scale=0.0), advance=False, scheduling="FREQUENCY")]
+    conns = [dict(src="n0", dst="n1", blocking=False, skip=False, jitter="LATEST", window=1, comm=dict(kind="det", loc=1.0 / (4 * r), scale=0.0)),
+             dict(src="n1", dst="n0", blocking=False, skip=True, jitter="LATEST", window=2, comm=dict(kind="det", loc=0.0, scale=0.0)),
+             dict(src="n1", dst="n2", blocking=False, skip=False, jitter="LATEST", window=1, comm=dict(kind="det", loc=1.0 / (2 * r) - cd + rng.choice([0.0, 1.0 / (4 * r)]), scale=0.0))]
+    return dict(nodes=nodes, conns=conns, supervisor="n0", seed=rng.randrange(1 << 30))
+
+
+def expected_windows(spec, graphs_raw, e):
+    """Independent window oracle from the raw recorded graph: for vertex (dst, k) and input src the last W sequence numbers of
+    [-1] * W ++ [seq_out of the edges src->dst with 0 <= seq_in <= k, in edge order], W = window + ceil(rate_src * (max - min)) for a
+    trainable delay. Returns {(dst, src): {k: [seqs]}}."""
+    import math
+
+    import numpy as onp
+
+    rates = {n["name"]: n["rate"] for n in spec["nodes"]}
+    out = {}
+    for c in spec["conns"]:
+        W = c["window"]
+        if c["comm"].get("kind") == "trainable":
+            W += int(math.ceil(round(rates[c["src"]] * (c["comm"]["max"] - c["comm"]["min"]), 9)))
+        ed = graphs_raw.edges[(c["src"], c["dst"])]
+        so = onp.asarray(ed.seq_out)[e].astype(int).tolist()
+        si = onp.asarray(ed.seq_in)[e].astype(int).tolist()
+        nsteps = int((onp.asarray(graphs_raw.vertices[c["dst"]].seq)[e] >= 0).sum())
+        pairs = [(a, b) for a, b in zip(so, si) if a >= 0 and b >= 0]
+        res = {}
+        for k in range(nsteps):
+            cons = [a for a, b in pairs if b <= k]
+            res[k] = ([-1] * W + cons)[-W:]
+        out[(c["dst"], c["src"])] = res
+    return out
 
 
 def spec_tie_advance(rng):
